@@ -101,7 +101,7 @@ class FakePGConnection(object):
         self.txid = None
         self.closed = False
         self.vf_pid = os.getpid()
-        fx.REGISTRY.append(self)
+        fx.register(self)
     # -- the modelled surface --
     @property
     def autocommit(self): return self._autocommit
@@ -202,9 +202,11 @@ class PGWorld(fx.World):
         pool = self.db.provider.pool
         if getattr(pool, 'con', None) is not None:
             forced.append('pool connection'); pool.con = None
-        for con in fx.REGISTRY:
-            try: con.force_close()
-            except Exception: pass
+        for serial, ref, thread in fx.REGISTRY:
+            con = ref()
+            if con is not None:
+                try: con.force_close()
+                except Exception: pass
         del fx.REGISTRY[:]
         self.server = Server()
         self.psycopg2._vf_connect = lambda *a, **k: FakePGConnection(self)
